@@ -152,6 +152,14 @@ func wireEngine(port string, repo string) {
 		// "dl:<ms>:<method>": the caller gives up after that many milliseconds (the server sees the request's context end
 		// wherever it happens to be)
 		callTimeout := 30 * time.Second
+		// "wait:<ms>:<method>": the caller pauses that long before it sends (a client retrying at its own pace)
+		if strings.HasPrefix(f[0], "wait:") {
+			p := strings.SplitN(f[0], ":", 3)
+			ms, _ := strconv.Atoi(p[1])
+			time.Sleep(time.Duration(ms) * time.Millisecond)
+			f[0] = p[2]
+			t0 = time.Now()
+		}
 		if strings.HasPrefix(f[0], "dl:") {
 			p := strings.SplitN(f[0], ":", 3)
 			ms, _ := strconv.Atoi(p[1])
